@@ -471,7 +471,10 @@ class OpRunner(object):
             if f['k'] == 'dir' and os.path.isdir(p) and self.rnd.random() < 0.5:
                 cwd = p
             elif self.rnd.random() < 0.5 or not os.path.isdir(os.path.dirname(p)):
-                argv += (['--'] if os.path.basename(p).startswith('-') else []) + [os.fsencode(p)]
+                # the directory asked for, spelled with trailing slashes / a trailing dot as well (same directory)
+                r6 = random.Random('rspell|%s|%s' % (w.conc.variant_seed, p))
+                tail = r6.choice(['', '', '/', '//', '/.']) if f['k'] == 'dir' and os.path.isdir(p) else ''
+                argv += (['--'] if os.path.basename(p).startswith('-') else []) + [os.fsencode(p + tail)]
             else:
                 cwd = os.path.dirname(p)
                 b = os.fsencode(os.path.basename(p))
@@ -566,7 +569,9 @@ class OpRunner(object):
         if self.rnd.random() < 0.25:
             argv.append('-v')
         if o['days'] != -1:
-            argv.append(str(o['days']))
+            # the same number, as argparse's int() reads it
+            r7 = random.Random('days|%s|%s' % (w.conc.variant_seed, json.dumps(o, sort_keys=True)))
+            argv.append(r7.choice(['%d', '%d', '%d', '0%d', '+%d', '00%d']) % o['days'])
         env = {}
         now_tick = state['clock']
         if w.conc.clock_via_env:
